@@ -32,3 +32,34 @@ Fixpoint mismatches_from (g : grammar) (start eof : N) (i : N) (l : list obs) : 
 
 Definition accepts (g : grammar) (start eof : N) (toks : list N) : bool :=
   match parse g eof start toks with Ok _ _ => true | _ => false end.
+
+(* ---------- closure machines vs the real hook closures (driven directly by the harness) ---------- *)
+From BWGrammar Require Import Hooks.
+
+Fixpoint da_trace (st : da_state) (inp : list (N * bool)) : list N :=
+  match inp with
+  | [] => []
+  | (k, ok) :: r => let (st', o) := da_step st k ok in
+                    (match o with DaNone => 0 | DaEmit => 1 | DaErr => 2 end) :: da_trace st' r
+  end.
+
+Fixpoint gb_trace (st : gb_state) (inp : list (N * bool)) : list N :=
+  match inp with
+  | [] => []
+  | (k, ok) :: r => let (st', o) := gb_step st k ok in
+                    (match o with GbNone => 0 | GbLower => 1 | GbUpper => 2 | GbBoth => 3 | GbErr => 4 | GbPanic => 5 end)
+                      :: gb_trace st' r
+  end.
+
+(* observation: (which machine: 0 = dataAccumulator, 1 = collectGlobalBounds, inputs, observed outputs) *)
+Definition hook_obs := (N * list (N * bool) * list N)%type.
+Definition hook_agrees (o : hook_obs) : bool :=
+  match o with
+  | (w, inp, outs) =>
+      list_eqb N.eqb (if N.eqb w 0 then da_trace DA0 inp else gb_trace (None, None) inp) outs
+  end.
+Fixpoint hook_mismatches (i : N) (l : list hook_obs) : list N :=
+  match l with
+  | [] => []
+  | o :: r => if hook_agrees o then hook_mismatches (i + 1) r else i :: hook_mismatches (i + 1) r
+  end.
